@@ -129,8 +129,16 @@ Proof. vm_compute. reflexivity. Qed.
 (* ---- the decoders' data: keys, separators, line numbers, number parsers, time formats ---- *)
 From Verif Require Import C19.Decode C19.DecodeGen C19.ProofsDecode.
 
-Lemma gen_interval_keys : keys_of interval_keys = Some planet_keys.
-Proof. reflexivity. Qed.
+(* the key chain of decodeIntervalState, as a finite map key -> State field, is the planet one;
+   the order of its branches / cases is free *)
+Definition gen_keys : list (string * field) :=
+  match keys_of interval_keys with Some ks => ks | None => [] end.
+
+Lemma gen_interval_keys : keys_of interval_keys = Some gen_keys /\ same_mapb gen_keys planet_keys = true.
+Proof. split; vm_compute; reflexivity. Qed.
+
+Lemma gen_keys_assoc : forall k, assoc_key k gen_keys = assoc_key k planet_keys.
+Proof. apply same_map_assoc. exact (proj2 gen_interval_keys). Qed.
 
 Lemma gen_interval_seps : sep_at interval_seps 0 = Some nlc /\ sep_at interval_seps 1 = Some "="%char.
 Proof. split; reflexivity. Qed.
@@ -170,7 +178,10 @@ Qed.
 
 Lemma decode_interval_gen_eq : forall data,
   decode_interval_gen data = Some (decode_interval planet_keys time_formats nlc "="%char data).
-Proof. reflexivity. Qed.
+Proof.
+  intros data. rewrite <- (decode_interval_ext gen_keys planet_keys time_formats nlc "="%char data gen_keys_assoc).
+  reflexivity.
+Qed.
 
 Lemma decode_changeset_gen_eq : forall data,
   decode_changeset_gen data = Some (decode_changeset time_formats nlc ":"%char 1 2 data).
